@@ -171,11 +171,11 @@ def field_offset(ty, idx, structs):
 # evaluation
 
 class Bool:
-    """tri-state truth value"""
-    __slots__ = ("v", "why")
+    """tri-state truth value; rel = (pred, a, b) when it is the result of an integer comparison"""
+    __slots__ = ("v", "why", "rel")
 
-    def __init__(self, v, why=""):
-        self.v, self.why = v, why
+    def __init__(self, v, why="", rel=None):
+        self.v, self.why, self.rel = v, why, rel
 
 
 HUGE = 1 << 62
@@ -424,7 +424,7 @@ class Evaluator:
                 raise Inconclusive("unparsed comparison: " + rhs[:80])
             pred, ty, a_s, b_s = mm.groups()
             a, b = self.val(a_s, env), self.val(b_s, env)
-            env[dst] = Bool(decide_cmp(pred, a, b, signs), "%s %r , %r" % (pred, a, b))
+            env[dst] = Bool(decide_cmp(pred, a, b, signs), "%s %r , %r" % (pred, a, b), (pred, a, b) if isinstance(a, Poly) and isinstance(b, Poly) else None)
             return None
         if op == "select":
             mm = re.match(r"^select i1 (\S+), (.+?) (\S+), (.+?) (\S+)$", rhs)
@@ -442,7 +442,25 @@ class Evaluator:
                 if isinstance(x, Bool) or isinstance(y, Bool):
                     env[dst] = Bool(None, "select(%s)" % c.why)
                 else:
-                    env[dst] = atom("ite", c.why, x, y)
+                    # select on x == c between two forms that coincide when x == c (a special case written out for speed): the general form
+                    same = None
+                    if c.rel is not None and c.rel[0] in ("eq", "ne") and isinstance(x, Poly) and isinstance(y, Poly):
+                        d = c.rel[1] - c.rel[2]
+                        for m_, co in d.t.items():
+                            if len(m_) == 1 and m_[0][1] == 1 and abs(co) == 1:          # d = +-sym + rest  =>  sym = -+rest
+                                sym = m_[0][0]
+                                rest = d - Poly({m_: co})
+                                val_ = rest * (-1 if co == 1 else 1)
+                                if sym in val_.symbols():
+                                    continue
+                                on_eq, other = (x, y) if c.rel[0] == "eq" else (y, x)
+                                try:
+                                    if other.subst({sym: val_}) == on_eq.subst({sym: val_}):
+                                        same = other
+                                except Exception:
+                                    pass
+                                break
+                    env[dst] = same if same is not None else atom("ite", c.why, x, y)
                 return None
             env[dst] = self.val(mm.group(3) if c.v else mm.group(5), env)
             return None
